@@ -20,7 +20,112 @@ def _eval_pd(expr, nj):
     return int(eval(expr.replace("n_jobs", str(nj)), {"__builtins__": {}}, {}))  # noqa: S307
 
 
+# start-up faults (F52; lean/JoblibModel/ParallelStartup.lean). Bad `pre_dispatch` values with the class of the exception their
+# resolution must raise, decided here from the documented behaviour (an arithmetic expression in n_jobs, or a number), independently
+# of joblib: kind 6 = `eval_expr`/`int` raises, kind 7 = the value resolves to a negative amount and `islice` raises ValueError.
+BAD_PD = {
+    6: [(1, "n_jobsx"), (1, "n_jobs +"), (1, "foo"), (1, "()"), (1, "n_jobs@2"), (2, None), (3, "1/0"), (3, "2//0"),
+        (3, "n_jobs%0"), (4, "1e999"), (4, "1e308*10")],
+    7: [(0, "-n_jobs"), (0, -1), (0, "0-1"), (0, "1-n_jobs*2")],
+}
+FAULT_NAME = {1: "LenBoom", 2: "ConfigureBoom", 3: "RuntimeError:Ctl-has-no-active", 4: "StartCallBoom", 5: "IterInitBoom",
+              7: "ValueError"}
+PD_CLASS = {1: "ValueError", 2: "TypeError", 3: "ZeroDivisionError", 4: "OverflowError"}
+
+
+def fault_name(kind, cls):
+    """Name of the exception a reached start-up fault must surface as (oracle side; the model has its own table)."""
+    if kind == 6:
+        return PD_CLASS[cls]
+    return FAULT_NAME[kind] + ("B" if cls == 1 and kind in (1, 2, 4, 5) else "")
+
+
+def add_startup_faults(sc: Scenario) -> Scenario:
+    """About 10 % of the calls get a start-up fault; a failed `__enter__` now and then. Uses an RNG derived from the scenario
+    itself, so the scenarios drawn from the seeded stream are the same as without faults."""
+    import dataclasses
+    frng = random.Random("startup-fault/" + sc.line())
+    calls = list(sc.calls)
+    changed = False
+    for i, c in enumerate(calls):
+        if frng.random() >= 0.10:
+            continue
+        if sc.nj == 1:
+            kind = frng.choice([1, 2, 3, 5, 5, 5, 4, 6])
+        else:
+            kind = frng.choice([1, 2, 3, 4, 5, 6, 6, 7])
+        if kind == 2 and sc.managed and frng.random() < 0.8:
+            kind = frng.choice([1, 3, 4, 5])  # configure is not called by a call inside a with block (kept rarely: not reached)
+        cls, pd = 0, None
+        if kind in (6, 7):
+            cls, pd = frng.choice(BAD_PD[kind])
+        elif kind in (1, 2, 4, 5) and frng.random() < 0.3:
+            cls = 1
+        calls[i] = dataclasses.replace(c, fault=kind, fault_cls=cls, fault_pd=pd)
+        changed = True
+    if changed and calls[-1].fault and frng.random() < 0.7:
+        # the object must be usable afterwards: a call after the failed one
+        calls.append(Call(frng.choice([1, 2, 3, 5]), cons=(() if sc.ra == 0 else tuple(frng.choice([1, 5]) for _ in range(frng.choice([0, 2]))))))
+    kw = {}
+    if sc.managed and frng.random() < 0.04:
+        kw = dict(enter_fault=2, enter_cls=int(frng.random() < 0.3))
+        calls = [dataclasses.replace(c, cons=tuple(o for o in c.cons if o != 6)) for c in calls]
+        changed = True
+    return dataclasses.replace(sc, calls=tuple(calls), **kw) if changed else sc
+
+
+def bad_pd_table_probe(res):
+    """Ties the exception CLASS the M1 start-up model is told a bad `pre_dispatch` raises (BAD_PD, an input of
+    JoblibModel/ParallelStartup.lean) to the model of the resolution itself: `EvalExpr.resolvePreDispatch` (driver of C09) must
+    say `raise <that class>` for every entry. Never aborts the check (a missing driver is counted, not fatal)."""
+    lines, keys = [], []
+    for kind, tab in BAD_PD.items():
+        for cls, v in tab:
+            for nj in (2, 3, 4):
+                if v is None:
+                    q = f"predispatch O {nj}"
+                elif isinstance(v, int):
+                    q = f"predispatch I {v} {nj}"
+                else:
+                    q = "predispatch T %s %d" % (".".join(str(ord(ch)) for ch in v), nj)
+                lines.append(q)
+                keys.append((kind, cls, v, nj))
+    try:
+        reps = core.Driver("C09").run(lines)
+    except BaseException as e:  # noqa: BLE001
+        res.count("bad-pre_dispatch-table-probe-skipped-" + type(e).__name__)
+        return
+    for (kind, cls, v, nj), rep in zip(keys, reps):
+        want = "raise " + ("ValueError" if kind == 7 else PD_CLASS[cls])
+        res.traces_validated += 1
+        res.count("bad-pre_dispatch-table-entries")
+        if rep != want:
+            res.diverge("bad-pre_dispatch-class", dict(pre_dispatch=repr(v), n_jobs=nj, kind=kind), want, rep)
+
+
+_GUARD = {}
+
+
+def probe_start_guard():
+    """Which code variant is under test: does `Parallel.__call__` clean up after a failed start-up (F52 repaired, /repo as it
+    is) or not?  Behavioural: a call whose `backend.start_call` raises, then a second call on the same object."""
+    import os
+    key = os.environ.get("VERIF_REPO", "/repo")
+    if key not in _GUARD:
+        try:
+            r = ctl.run_scenario(Scenario(nj=2, bs_auto=False, bs=(1,), pd=2, calls=(Call(1, fault=4), Call(1))))
+            second = r.outcomes[1]
+            _GUARD[key] = (not (second[0] == "raise" and second[1] == "RuntimeError"), "")
+        except BaseException as e:  # noqa: BLE001 - a probe never aborts the check: fall back to the current variant
+            _GUARD[key] = (True, "fallback-" + type(e).__name__)
+    return _GUARD[key]
+
+
 def gen_scenario(rng, focus=None, big=False) -> Scenario:
+    return add_startup_faults(_gen_scenario(rng, focus, big))
+
+
+def _gen_scenario(rng, focus=None, big=False) -> Scenario:
     nj = rng.choice([2, 2, 3, 4]) if rng.random() > 0.08 else 1  # 1 = the sequential path
     bs_auto = rng.random() < 0.65
     if bs_auto:
@@ -182,7 +287,7 @@ def oracle(sc: Scenario, run: ctl.Run, props):
         iterfail_id = base + call.iterfail if call.iterfail >= 0 else None
         effective = ids if iterfail_id is None else ids[: call.iterfail]
         base += call.n
-        term = [e for e in evs if e.startswith(("ret", "raise", "stop", "closed", "dropped"))]
+        term = [e for e in evs if e == "stop" or e.startswith(("ret", "raise", "closed", "dropped"))]  # not `stop_call`
         final = term[-1] if term else None
         yields = [int(e.split()[1]) for e in evs if e.startswith("yield ")]
         if final is None:
@@ -190,7 +295,13 @@ def oracle(sc: Scenario, run: ctl.Run, props):
             continue
         got = ids_of(final) if final.startswith("ret") else yields
         raised = final[6:] if final.startswith("raise ") else None
-        clean = not failing and iterfail_id is None
+        fname = fault_name(call.fault, call.fault_cls) if call.fault else None
+        # is the statement the fault breaks certainly executed by this call? (kind 2: only when the call configures the backend
+        # itself; n_jobs == 1: start_call / pre_dispatch / islice are not used; `iter` may never be reached if the consumer
+        # closes the generator first)
+        fault_sure = bool(call.fault) and (call.fault in (1, 3) or (call.fault == 2 and "configure" in evs)
+                                           or (sc.nj > 1 and call.fault in (4, 5, 6, 7)))
+        clean = not failing and iterfail_id is None and (fname is None or raised != fname) and not fault_sure
         # was the call cut short by the consumer?
         cut = final in ("closed", "dropped") or 6 in call.cons or "exit" in evs
         recalled_ok = any(e == "recall-ok" for e in evs)
@@ -211,7 +322,19 @@ def oracle(sc: Scenario, run: ctl.Run, props):
             continue
         timeouts_possible = sc.timeout >= 0
         abandoned_block = 6 in call.cons or "exit" in evs  # the consumer left the with-block with the generator alive
-        if abandoned_block:
+        if fname is not None and raised == fname:
+            # ---- C04 / F52: a call that failed while starting up
+            if any(e.startswith(("pull", "submit", "exec", "complete")) and
+                   (e.startswith("pull-raise") or set(ids_of(e)) & set(ids)) for e in evs):
+                bad.append(("C04", "failed-start:tasks-dispatched", dict(call=cno, fault=call.fault)))
+            if sc.nj > 1 or call.fault == 3:
+                if "start_call" in evs and call.fault != 4 and "stop_call" not in evs[evs.index("start_call"):]:
+                    bad.append(("C04", "failed-start:backend-call-left-open", dict(call=cno, fault=call.fault)))
+                if "configure" in evs and call.fault != 2 and "terminate" not in evs[evs.index("configure"):]:
+                    bad.append(("C04", "failed-start:backend-not-terminated", dict(call=cno, fault=call.fault)))
+        elif fault_sure:
+            bad.append(("C04", "startup-fault-not-surfaced", dict(call=cno, fault=call.fault, want=fname, got=final)))
+        elif abandoned_block:
             pass
         elif raised is None and not cut:
             # normal completion: values and exactly-once
@@ -244,6 +367,8 @@ def oracle(sc: Scenario, run: ctl.Run, props):
                 allowed.add("TimeoutError")
             if sc.warn_error:
                 allowed.add("UserWarning")  # the escalated early-exit warning of an abandoned generator
+            if fname is not None:
+                allowed.add(fname)
             if raised not in allowed:
                 if clean:
                     bad.append(("C01", "unexpected-exception:" + re.sub(r"\d+", "N", raised), dict(call=cno, raised=raised)))
@@ -479,6 +604,12 @@ def explore(ctx, props, n, salt, focus=None, scenarios=None, driver_prop=None):
             if rng.random() < 0.3:
                 sc = oracle_only_variant(rng, sc)
             scs.append(sc)
+    import dataclasses
+    guard, note = probe_start_guard()
+    res.count("startGuard=%d" % guard)
+    if note:
+        res.count("startGuard-probe-" + note)
+    scs = [sc if sc.start_guard == guard else dataclasses.replace(sc, start_guard=guard) for sc in scs]
     runs = []
     for sc in scs:
         try:
@@ -505,11 +636,16 @@ def explore(ctx, props, n, salt, focus=None, scenarios=None, driver_prop=None):
         res.count("pd=" + ("all" if sc.pd_mode == 1 else "expr" if sc.pd_mode == 2 else "int"))
         res.count("calls=%d" % len(sc.calls))
         res.count("bs=" + ("auto" if sc.bs_auto else "fixed"))
+        for c_ in sc.calls:
+            if c_.fault:
+                res.count("startup-fault=%d" % c_.fault)
+        if sc.enter_fault:
+            res.count("startup-fault=enter")
         for e in r.log:
             k = e.split(" ")[0]
             if k in ("raise", "hang", "closed", "dropped", "recall-RuntimeError", "recall-ok", "abort"):
                 res.count("ev:" + (e if k == "raise" and "Boom" not in e else k))
-        nontriv = any(c.n for c in sc.calls) and (len(sc.calls) > 1 or any(c.fail or c.cons or c.iterfail >= 0 for c in sc.calls)
+        nontriv = any(c.n for c in sc.calls) and (len(sc.calls) > 1 or any(c.fail or c.cons or c.iterfail >= 0 or c.fault for c in sc.calls)
                                                    or any(any(i != 0 for i in e) for e in sc.sched))
         if nontriv:
             res.nontrivial.add(sc.line())
@@ -633,6 +769,8 @@ def run_prop(ctx, prop, focuses):
         return explore(ctx, {prop}, 1, "replay", scenarios=[sc])
     if ctx.thorough:
         out = explore_sharded(ctx, {prop}, 60000, "thorough", focuses)
+        if prop == "C04":
+            bad_pd_table_probe(out)
         instr_sweep(ctx, out, {prop}, 10**9)
         if prop in ("C01", "C09"):
             autobatch_probe(ctx, out, {prop}, 20000, prop)
@@ -652,6 +790,8 @@ def run_prop(ctx, prop, focuses):
         return out
     rs = [explore(ctx, {prop}, 2400 // len(focuses), f"quick-{f}", f) for f in focuses]
     out = merge(rs)
+    if prop == "C04":
+        bad_pd_table_probe(out)
     instr_sweep(ctx, out, {prop}, 150)
     if prop in ("C01", "C09"):
         autobatch_probe(ctx, out, {prop}, 400, prop)
